@@ -52,6 +52,13 @@ def is_symbolic_seq(a):
     return False
 
 
+def _defloat(a):
+    """an object array without symbolic entries goes back to float64 before it reaches a C kernel"""
+    if isinstance(a, np.ndarray) and a.dtype == object:
+        return np.asarray(a.view(np.ndarray), dtype=float)
+    return a
+
+
 def _vec(f, a):
     a = np.asarray(a, dtype=object)
     out = np.empty(a.shape, dtype=object)
@@ -213,13 +220,13 @@ class Facade:
     def sqrt(self, a):
         if is_symbolic_seq(a):
             return _vec(lambda v: v.sqrt() if isinstance(v, SV) else SV(zval(v)).sqrt(), a)
-        return np.sqrt(a)
+        return np.sqrt(_defloat(a))
 
     def _unary(name):
         def f(self, a, *args, **k):
             if is_symbolic_seq(a):
                 return _vec(lambda v: getattr(v if isinstance(v, SV) else SV(zval(v)), name)(), a)
-            return getattr(np, name)(a, *args, **k)
+            return getattr(np, name)(_defloat(a), *args, **k)
 
         f.__name__ = name
         return f
